@@ -132,12 +132,17 @@ def Obj.matches1 (o : Obj) (t : String × TmplVal) : Bool :=
 
 def Obj.matchesTmpl (o : Obj) (tmpl : List (String × TmplVal)) : Bool := tmpl.all o.matches1
 
+/-- the exponent `generateKeyPair` is asked for (the emulator's default is 65537) -/
+def wantedE (exponent : Option Bytes) : Nat :=
+  match exponent with
+  | some e => beNat e
+  | none => 65537
+
 /-- `generateKeyPair`: the first pool key of the requested size and exponent -/
 def pickPool (bits : Option Nat) (exponent : Option Bytes) : List PoolKey → Option (PoolKey × List PoolKey)
   | [] => none
   | k :: rest =>
-    let wantE := match exponent with | some e => beNat e | none => 65537
-    if some k.bits = bits ∧ k.e = wantE then some (k, rest)
+    if some k.bits = bits ∧ k.e = wantedE exponent then some (k, rest)
     else match pickPool bits exponent rest with
       | some (x, r) => some (x, k :: r)
       | none => none
@@ -243,9 +248,8 @@ def p11ObjectToPublicKeyP (path : String) (slot handle : Nat) : Prog (Option Str
   | _ => .fail .unsupported
 
 /-- the end of `find_key_by_label`: read the key type, build the key record -/
-def foundKeyP (m : P11Module) (label : String) (keyClass : Nat) (hashUsingHsm : Option Bool)
-    (slot h : Nat) : Prog (Option P11Key) := do
-  let pk ← if keyClass ≠ ckoSecret then p11ObjectToPublicKeyP m.path slot h else pure none
+def foundKeyTailP (m : P11Module) (label : String) (keyClass : Nat) (hashUsingHsm : Option Bool)
+    (slot h : Nat) (pk : Option String) : Prog (Option P11Key) := do
   let kt ← attr1P (← askOkP (.getAttr m.path slot h ["KEY_TYPE"]))
   match kt with
   | .num n =>
@@ -258,6 +262,13 @@ def foundKeyP (m : P11Module) (label : String) (keyClass : Nat) (hashUsingHsm : 
                    pubHandle := if keyClass ≠ ckoSecret then some h else none })
   | .none => errP .value
   | _ => .fail .unsupported
+
+/-- what `find_key_by_label` does once exactly one handle `h` was returned for `slot` -/
+def foundKeyP (m : P11Module) (label : String) (keyClass : Nat) (hashUsingHsm : Option Bool)
+    (slot h : Nat) : Prog (Option P11Key) :=
+  if keyClass ≠ ckoSecret then
+    p11ObjectToPublicKeyP m.path slot h >>= foundKeyTailP m label keyClass hashUsingHsm slot h
+  else foundKeyTailP m label keyClass hashUsingHsm slot h none
 
 /-- `find_key_by_label` over the sessions of one module, in session order -/
 def findInSlotsP (m : P11Module) (label : String) (keyClass : Nat) (hashUsingHsm : Option Bool) :
@@ -302,14 +313,18 @@ def getSession (mods : List P11Module) : Res (String × Nat) :=
 
 /-! ### kskm/keymaster/keygen.py -/
 
-/-- `generate_key_from_templates` (F9a repaired: either class blocks generation) -/
+/-- the existing-label check of `generate_key_from_templates` (F9a repaired):
+    `get_p11_key(label, public=True) or get_p11_key(label, public=False)` -/
+def existingKeyP (mods : List P11Module) (label : String) : Prog (Option P11Key) := do
+  match ← getP11KeyP label true none mods with
+  | some k => pure (some k)
+  | none => getP11KeyP label false none mods
+
+/-- `generate_key_from_templates`: refuse when the label exists, else generate on `get_session()` and
+    look the new public object up -/
 def generateKeyFromTemplatesP (mods : List P11Module) (label : String) (bits : Option Nat)
     (exponent : Option Bytes) : Prog (Option P11Key) := do
-  let existing ← do
-    match ← getP11KeyP label true none mods with
-    | some k => pure (some k)
-    | none => getP11KeyP label false none mods
-  match existing with
+  match ← existingKeyP mods label with
   | some _ => pure none                      -- "A key with label … already exists"; sleep(4)
   | none => do
     let (path, slot) ← liftP (getSession mods)
@@ -420,27 +435,54 @@ def keygenReport (ext : Externals) (cfg : KmConfig) (alg : Nat) (label pk : Stri
   pure { label, keyTag := key.keyTag, revokedTag := revoked.keyTag, dnsLines := dns.format 4 100,
          words := pgpWordlist dns.dsDigest, dsDigest := dns.dsDigest }
 
+/-- the end of `keygen`: "No public key returned by key generation", else the report -/
+def keygenTail (ext : Externals) (cfg : KmConfig) (alg : Nat) (p11key : Option P11Key) : Res KeygenReport :=
+  match p11key with
+  | none => err .runtime
+  | some k =>
+    match k.publicKey with
+    | none => err .runtime
+    | some pk => if pk.isEmpty then err .runtime else keygenReport ext cfg alg k.label pk
+
+/-- the key generation step of `keygen` -/
+def keygenGenerateP (mods : List P11Module) (alg : Nat) (keySize : Option Nat) (label : Option String) :
+    Prog (Option P11Key) :=
+  if isAlgorithmRsa alg then
+    match keySize with
+    | none => errP .other                     -- argparse.ArgumentError
+    | some bits => generateRsaKeyP mods bits label
+  else if isAlgorithmEcdsa alg then errP .notImplemented
+  else errP .value
+
 /-- `keygen(args, config, p11modules, logger)`.  NOTE the order: the key pair is generated on the
     token BEFORE the tag collision test; a collision leaves the new pair on the token. -/
 def keygenP (ext : Externals) (cfg : KmConfig) (mods : List P11Module) (alg : Nat) (keySize : Option Nat)
     (label : Option String) : Prog KeygenReport := do
-  let p11key ←
-    if isAlgorithmRsa alg then
-      match keySize with
-      | none => errP .other                     -- argparse.ArgumentError
-      | some bits => generateRsaKeyP mods bits label
-    else if isAlgorithmEcdsa alg then errP .notImplemented
-    else errP .value
-  match p11key with
-  | none => errP .runtime                       -- "No public key returned by key generation"
-  | some k =>
-    match k.publicKey with
-    | none => errP .runtime
-    | some pk =>
-      if pk.isEmpty then errP .runtime else
-      liftP (keygenReport ext cfg alg k.label pk)
+  let p11key ← keygenGenerateP mods alg keySize label
+  liftP (keygenTail ext cfg alg p11key)
 
 /-! ### kskm/keymaster/delete.py -/
+
+/-- first destroy of `key_delete`: the public object, through the session it was found in, when the
+    key has a public key and a handle -/
+def destroyPublicP (pub : P11Key) : Prog Unit :=
+  match pub.publicKey, pub.pubHandle with
+  | some pk, some h =>
+    if pk.isEmpty then pure () else do
+      let _ ← askOkP (.destroyObject pub.module pub.slot h)
+      pure ()
+  | _, _ => pure ()
+
+/-- second half of `key_delete`: look the private object up again, destroy it where it was found -/
+def destroyPrivateP (mods : List P11Module) (label : String) : Prog Bool := do
+  match ← getP11KeyP label false none mods with
+  | none => pure false
+  | some priv =>
+    match priv.privHandle with
+    | none => pure false
+    | some h => do
+      let _ ← askOkP (.destroyObject priv.module priv.slot h)
+      pure true
 
 /-- `key_delete(label, p11modules, force)` (F9b repaired); `answer` is what `input()` returns -/
 def keyDeleteP (mods : List P11Module) (label : String) (force : Bool) (answer : String) : Prog Bool := do
@@ -449,20 +491,8 @@ def keyDeleteP (mods : List P11Module) (label : String) (force : Bool) (answer :
   | some pub =>
     if !force && !confirmed answer then pure true      -- "aborted" — returns True
     else do
-      match pub.publicKey, pub.pubHandle with
-      | some pk, some h =>
-        if pk.isEmpty then pure () else do
-          let _ ← askOkP (.destroyObject pub.module pub.slot h)
-          pure ()
-      | _, _ => pure ()
-      match ← getP11KeyP label false none mods with
-      | none => pure false
-      | some priv =>
-        match priv.privHandle with
-        | none => pure false
-        | some h => do
-          let _ ← askOkP (.destroyObject priv.module priv.slot h)
-          pure true
+      destroyPublicP pub
+      destroyPrivateP mods label
 
 /-- `keydel(args, config, p11modules, logger)`: the result of `key_delete` is dropped -/
 def keydelP (mods : List P11Module) (label : String) (force : Bool) (answer : String) : Prog Bool := do
@@ -483,37 +513,55 @@ structure KeyInfo where
     only escaped, `None` ends in `e`; so the suffix after the last possible `+` is determined). -/
 def KeyInfo.key (k : KeyInfo) : String × Option Bytes := (k.label, k.keyId)
 
+/-- `key_id = None if _key_id == () else bytes(_key_id)` -/
+def keyIdOfP (i : AttrAns) : Prog (Option Bytes) :=
+  match i with
+  | .bytes [] => pure none
+  | .bytes b => pure (some b)
+  | .none => errP .type
+  | _ => .fail .unsupported
+
+/-- the `label: str` field of `KeyInfo` (validated when the model is built) -/
+def labelOfP (l : AttrAns) : Prog String :=
+  match l with
+  | .str s => pure s
+  | .none => errP .validation
+  | _ => .fail .unsupported
+
+/-- the class dispatch of `get_key_inventory`: SECRET / PUBLIC (with its public key) / PRIVATE; anything
+    else is skipped -/
+def keyInfoOfP (path : String) (slot h : Nat) (c l : AttrAns) (keyId : Option Bytes) : Prog (Option KeyInfo) :=
+  match c with
+  | .num n =>
+    if n = ckoSecret then do
+      let lab ← labelOfP l
+      pure (some { keyClass := ckoSecret, label := lab, keyId })
+    else if n = ckoPublic then do
+      let pub ← p11ObjectToPublicKeyP path slot h
+      let lab ← labelOfP l
+      pure (some { keyClass := ckoPublic, label := lab, keyId, pubkey := pub })
+    else if n = ckoPrivate then do
+      let lab ← labelOfP l
+      pure (some { keyClass := ckoPrivate, label := lab, keyId })
+    else pure none
+  | .none => pure none
+  | _ => .fail .unsupported
+
+/-- one object of `get_key_inventory`: CLASS, LABEL, ID in one read -/
+def inventoryOneP (path : String) (slot h : Nat) : Prog (Option KeyInfo) := do
+  let a ← askOkP (.getAttr path slot h ["CLASS", "LABEL", "ID"])
+  match a with
+  | .attrs [c, l, i] => do
+    let keyId ← keyIdOfP i
+    keyInfoOfP path slot h c l keyId
+  | _ => .fail .unsupported
+
 def inventoryLoopP (path : String) (slot : Nat) : List Nat → Prog (List KeyInfo)
   | [] => pure []
   | h :: rest => do
-    let a ← askOkP (.getAttr path slot h ["CLASS", "LABEL", "ID"])
-    match a with
-    | .attrs [c, l, i] =>
-      -- `key_id = None if _key_id == () else bytes(_key_id)`
-      let keyId ← match i with
-        | .bytes [] => pure none
-        | .bytes b => pure (some b)
-        | .none => errP .type
-        | _ => .fail .unsupported
-      let lab : Prog String := match l with
-        | .str s => pure s
-        | .none => errP .validation
-        | _ => .fail .unsupported
-      let this : Option KeyInfo ← match c with
-        | .num n =>
-          if n = ckoSecret then do
-            pure (some { keyClass := ckoSecret, label := (← lab), keyId })
-          else if n = ckoPublic then do
-            let pub ← p11ObjectToPublicKeyP path slot h
-            pure (some { keyClass := ckoPublic, label := (← lab), keyId, pubkey := pub })
-          else if n = ckoPrivate then do
-            pure (some { keyClass := ckoPrivate, label := (← lab), keyId })
-          else pure none
-        | .none => pure none
-        | _ => .fail .unsupported
-      let more ← inventoryLoopP path slot rest
-      pure (match this with | some k => k :: more | none => more)
-    | _ => .fail .unsupported
+    let this ← inventoryOneP path slot h
+    let more ← inventoryLoopP path slot rest
+    pure (match this with | some k => k :: more | none => more)
 
 /-- `KSKM_P11Module.get_key_inventory(session)`: `findObjects` with an EMPTY template -/
 def getKeyInventoryP (path : String) (slot : Nat) : Prog (List KeyInfo) := do
